@@ -35,6 +35,63 @@ theorem c16_shard_answer (calls : List Call) (rep : Nat) (ids : List ProxySearch
     subst this; exact ⟨h1, h2⟩
   · rintro ⟨h1, h2⟩; exact ⟨rep, by omega, h1, h2⟩
 
+/-- **Shuffled replicas (`ShuffleReplicas = true`).**  For every replica order `perm` (any list - unbounded): a shard
+answers with replica `rep` exactly when `rep` is the first asked replica that does not fail, and the answer names that
+very replica (`searchHost` returns the source of the host it asked): `rep` was asked, and it is `rep`'s own response. -/
+theorem c16_shard_answer_perm (perm : List Nat) (calls : List Call) (rep : Nat) (ids : List ProxySearch.ID) (t n : Nat) :
+    searchShardP perm calls = .ok rep ids t n ↔
+      ∃ k : Nat, (permuted perm calls)[k]? = some (rep, Call.resp .none ids t n) ∧
+        ∀ j : Nat, j < k → ∃ r : Nat, (permuted perm calls)[j]? = some (r, Call.fail) :=
+  searchShardPGo_ok false (permuted perm calls) rep ids t n
+
+/-- ... in particular the source of a shard answer is a replica that returned exactly those IDs -/
+theorem c16_shard_source (perm : List Nat) (calls : List Call) (rep : Nat) (ids : List ProxySearch.ID) (t n : Nat)
+    (h : searchShardP perm calls = .ok rep ids t n) : rep ∈ perm ∧ calls[rep]? = some (.resp .none ids t n) :=
+  searchShardP_source perm calls rep ids t n h
+
+/-- without shuffling the order is `0, 1, 2, ...` and the shuffled model is the plain one -/
+theorem c16_shard_unshuffled (calls : List Call) :
+    searchShardPGo false (indexed 0 calls) = searchShard calls := searchShardPGo_range 0 false calls
+
+/-- **C16 (search promises, fetch keeps).**  Replicas asked in any orders `hp s` / `cp s` per shard, any arrival
+order: every ID of a successful `Search` is attributed to a (shard, replica) of the consulted tier that was asked and
+whose own response contains that ID - and (`c16_response_aligned`) the document for it is fetched from exactly that
+store (`behav (srcNat cold (shard, replica))`).  So the fetch goes to a replica that holds what the search promised. -/
+theorem c16_source_routing (hot cold : List (List Call)) (hp cp : Nat → List Nat)
+    (hotArr coldArr : List (Nat × ShardRes)) (hh : hotArr.Perm (resultsP hp hot)) (hc : coldArr.Perm (resultsP cp cold))
+    (offset size : Nat) (rev : Bool) (ids : List (ProxySearch.ID × Src)) (t e : Nat) (p c : Bool)
+    (h : search hotArr coldArr offset size rev = .ok ids t e p c) :
+    ∀ x ∈ ids, ∃ calls l t' e', (if c then cold else hot)[x.2.1]? = some calls ∧
+      x.2.2 ∈ (if c then cp else hp) x.2.1 ∧ calls[x.2.2]? = some (.resp .none l t' e') ∧ x.1 ∈ l := by
+  obtain ⟨qs, hst, hids⟩ := search_ok_tier hotArr coldArr offset size rev ids t e p c h
+  intro x hx
+  rw [hids] at hx
+  obtain ⟨l, t', e', hm, hxl⟩ := attribution _ qs p hst offset size rev x hx
+  have key : ∀ (perms : Nat → List Nat) (tier : List (List Call)) (arr : List (Nat × ShardRes)),
+      arr.Perm (resultsP perms tier) → (x.2.1, ShardRes.ok x.2.2 l t' e') ∈ arr →
+      ∃ calls, tier[x.2.1]? = some calls ∧ x.2.2 ∈ perms x.2.1 ∧ calls[x.2.2]? = some (.resp .none l t' e') := by
+    intro perms tier arr hperm hmem
+    rw [hperm.mem_iff] at hmem
+    simp only [resultsP, List.mem_map] at hmem
+    obtain ⟨sc, hsc, heq⟩ := hmem
+    obtain ⟨s, calls⟩ := sc
+    injection heq with h1 h2
+    simp only at h1 h2
+    subst h1
+    have hget := (mem_indexed 0 tier _ calls).mp hsc
+    simp only [Nat.zero_le, true_and, Nat.sub_zero] at hget
+    have := searchShardP_source _ _ _ _ _ _ h2
+    exact ⟨calls, hget, this.1, this.2⟩
+  cases c with
+  | true =>
+    simp only [if_true] at hm ⊢
+    obtain ⟨calls, h1, h2, h3⟩ := key cp cold coldArr hc hm
+    exact ⟨calls, l, t', e', h1, h2, h3, hxl⟩
+  | false =>
+    simp only [Bool.false_eq_true, if_false] at hm ⊢
+    obtain ⟨calls, h1, h2, h3⟩ := key hp hot hotArr hh hm
+    exact ⟨calls, l, t', e', h1, h2, h3, hxl⟩
+
 /-- **C16 (outcome).**  For every topology (any number of shards and replicas, read stores optional), every
 assignment of per-call behaviours and every order in which the shards answer: `Search` fails with an error (a panic
 only when some shard has no replica at all), or - see `Honest` - the returned IDs are page `[offset, offset+size)`
@@ -892,6 +949,13 @@ store-reported errors of an otherwise clean answer into codes.Internal (the orde
 theorem c16_x_api_shape :
     doSearchOrder = ["g.searchIngestor.Search", "parseProxyError", "errors.Is(err, consts.ErrPartialResponse)", "processSearchErrors"] ∧
     apiStoreErrorsCond = ["err == nil && len(qpr.Errors) > 0"] := by decide
+
+/-- the source of a shard answer is looked up for the very host that was queried: `searchShard` asks `hosts[idx[i]]`
+and takes `source` from `searchHost`, which returns `si.sourceByClient[host]` of its own `host` argument - the pairing
+`searchShardP` models (the replica named in `.ok` is the one asked) -/
+theorem c16_x_source_of_asked_host :
+    shardHostAndSource = ["host := hosts[idx[i]]", "resp, source, err := si.searchHost(ctx, request, host)"] ∧
+    searchHostReturns = ["return data, si.sourceByClient[host], nil"] := by decide
 
 /-- how the handlers pair IDs and documents: `makeProtoDocs` (Search / ComplexSearch) by position - `Id` from
 `qpr.IDs[i]`, `Data` from the i-th `docs.Next()` -, `Export` and `Fetch` by the document's own ID -/
